@@ -2,6 +2,7 @@ package gen
 
 import (
 	"crypto/sha512"
+	"fmt"
 
 	"pgregory.net/rapid"
 
@@ -18,6 +19,7 @@ type CsigSpec struct {
 	External rc.Hex         `json:"external,omitempty"`
 	Groups   []CsigGroup    `json:"groups,omitempty"` // countersignatures on this countersignature
 	NoAlg    bool           `json:"no_alg,omitempty"` // alg omitted (only with external data)
+	Inject   bool           `json:"inject,omitempty"` // alg absent from Prot, no external: the signer's alg is inserted at signing time
 }
 
 // CsigGroup is the value of one countersignature header parameter.
@@ -38,6 +40,7 @@ type SigSpec struct {
 	Unprot rc.Val         `json:"unprot"`
 	Groups []CsigGroup    `json:"groups,omitempty"`
 	NoAlg  bool           `json:"no_alg,omitempty"`
+	Inject bool           `json:"inject,omitempty"`
 }
 
 // MsgSpec is a serialisable abstract message.
@@ -52,6 +55,7 @@ type MsgSpec struct {
 	Sigs     []SigSpec    `json:"sigs"` // exactly one for Sign1 (its Prot/Unprot unused)
 	Groups   []CsigGroup  `json:"groups,omitempty"`
 	NoAlg    bool         `json:"no_alg,omitempty"`
+	Inject   bool         `json:"inject,omitempty"` // Sign1 only (a COSE_Sign body has no alg)
 }
 
 // Ext returns the external data as the caller passes it.
@@ -73,6 +77,7 @@ type MsgOpts struct {
 	Hdr        HeaderOpts
 	HugeLens   bool
 	FixedAlg   *int64 // restrict all keys to this algorithm (cheap crypto)
+	Inject     bool   // sometimes leave alg out (no external data) so that signing must insert it
 }
 
 func expand(seed []byte, n int) []byte {
@@ -113,10 +118,12 @@ func drawExternal(t *rapid.T) (ext []byte, isNil bool) {
 
 // layerHeaders draws conforming headers for one layer signed with alg; with
 // external data present the alg may be omitted.
-func layerHeaders(t *rapid.T, o MsgOpts, alg int64, hasExt bool) (prot, unprot rc.Val, noAlg bool) {
+func layerHeaders(t *rapid.T, o MsgOpts, alg int64, hasExt bool) (prot, unprot rc.Val, noAlg, inject bool) {
 	ho := o.Hdr
 	if hasExt && rapid.IntRange(0, 3).Draw(t, "omit-alg") == 0 {
 		noAlg = true
+	} else if !hasExt && o.Inject && rapid.IntRange(0, 3).Draw(t, "inject-alg") == 0 {
+		inject = true
 	} else {
 		a := alg
 		ho.Alg = &a
@@ -155,7 +162,7 @@ func drawGroups(t *rapid.T, o MsgOpts, depth int) []CsigGroup {
 			if !g.Abbrev() {
 				co := o
 				co.Hdr.MaxEntries = 3
-				c.Prot, c.Unprot, c.NoAlg = layerHeaders(t, co, c.Key.Alg, len(c.External) > 0)
+				c.Prot, c.Unprot, c.NoAlg, c.Inject = layerHeaders(t, co, c.Key.Alg, len(c.External) > 0)
 				if depth < 2 {
 					c.Groups = drawGroups(t, o, depth+1)
 				}
@@ -206,13 +213,13 @@ func Msg(t *rapid.T, o MsgOpts) MsgSpec {
 			s := SigSpec{Key: drawKey(t, o), ViaKey: rapid.IntRange(0, 4).Draw(t, "viakey") == 0}
 			so := o
 			so.Hdr.MaxEntries = 4
-			s.Prot, s.Unprot, s.NoAlg = layerHeaders(t, so, s.Key.Alg, hasExt)
+			s.Prot, s.Unprot, s.NoAlg, s.Inject = layerHeaders(t, so, s.Key.Alg, hasExt)
 			s.Groups = drawGroups(t, o, 1)
 			m.Sigs = append(m.Sigs, s)
 		}
 	} else {
 		s := SigSpec{Key: drawKey(t, o), ViaKey: rapid.IntRange(0, 4).Draw(t, "viakey") == 0}
-		m.Prot, m.Unprot, m.NoAlg = layerHeaders(t, o, s.Key.Alg, hasExt)
+		m.Prot, m.Unprot, m.NoAlg, m.Inject = layerHeaders(t, o, s.Key.Alg, hasExt)
 		m.Sigs = []SigSpec{s}
 	}
 	m.Groups = drawGroups(t, o, 0)
@@ -228,6 +235,7 @@ type Parent struct {
 	BodyProt []byte       // content of the parent's protected bstr
 	Payload  []byte       // parent's payload (Sign1/Sign) or signature (Signature/Countersignature)
 	Sig      []byte       // parent's signature (Sign1 only: other_fields)
+	Where    string       // path of the parent (labels the countersignatures made over it)
 }
 
 // CountersignTBS returns the reference Countersign_structure for a parent.
@@ -252,8 +260,34 @@ type Builder struct {
 	Ch      *RChooser // nil => deterministic
 	T       *rapid.T
 	Entropy []byte
+	// SignFn overrides the reference signer (nil: refcose.Sign).
+	SignFn func(km refcose.KeyMat, tbs []byte, tag string) []byte
+	// OnTBS, if set, is told every structure that gets signed (where, tbs).
+	OnTBS func(where string, tbs []byte)
 	// statistics
 	EmptyA0 int // h'a0' used for an empty protected header
+}
+
+func (b *Builder) sign(km refcose.KeyMat, tbs []byte, tag string) []byte {
+	if b.OnTBS != nil {
+		b.OnTBS(tag, tbs)
+	}
+	if b.SignFn != nil {
+		return b.SignFn(km, tbs, tag)
+	}
+	return refcose.Sign(km.Alg, km, tbs, b.entropyFor(tag))
+}
+
+// withInject returns the protected map that is actually signed: the spec's
+// map plus the signer's alg when the spec says signing inserts it.
+func withInject(prot rc.Val, inject bool, alg int64) rc.Val {
+	if !inject {
+		return prot
+	}
+	if prot.K != rc.KMap {
+		prot = rc.Map()
+	}
+	return prot.With(rc.Int(1), rc.Int(alg))
 }
 
 func (b *Builder) ch() rc.Chooser {
@@ -282,21 +316,22 @@ func (b *Builder) entropyFor(tag string) []byte {
 // csigValue builds the value of a countersignature group as raw CBOR.
 func (b *Builder) groupEntries(groups []CsigGroup, p Parent) []rc.KV {
 	var out []rc.KV
-	for gi, g := range groups {
+	for _, g := range groups {
 		if g.Abbrev() {
 			c := g.Items[0]
 			tbs := CountersignTBS(p, true, []byte{}, c.External)
-			sig := refcose.Sign(c.Key.Alg, c.Key, tbs, b.entropyFor("a"+string(rune(gi))))
+			sig := b.sign(c.Key, tbs, fmt.Sprintf("%s/%d", p.Where, g.Label))
 			out = append(out, rc.E(rc.Int(g.Label), rc.Bytes(sig)))
 			continue
 		}
 		var items []rc.Val
 		for ci, c := range g.Items {
-			cp := b.protContent(c.Prot)
+			cp := b.protContent(withInject(c.Prot, c.Inject, c.Key.Alg))
 			tbs := CountersignTBS(p, false, cp, c.External)
-			sig := refcose.Sign(c.Key.Alg, c.Key, tbs, b.entropyFor("c"+string(rune(gi))+string(rune(ci))))
+			where := fmt.Sprintf("%s/%d[%d]", p.Where, g.Label, ci)
+			sig := b.sign(c.Key, tbs, where)
 			un := c.Unprot.Clone()
-			un.M = append(un.M, b.groupEntries(c.Groups, Parent{Kind: refcose.KCountersignature, BodyProt: cp, Payload: sig})...)
+			un.M = append(un.M, b.groupEntries(c.Groups, Parent{Kind: refcose.KCountersignature, BodyProt: cp, Payload: sig, Where: where})...)
 			raw := []byte{0x83}
 			raw = append(raw, rc.Encode(rc.Bytes(cp), b.ch())...)
 			raw = append(raw, rc.Encode(un, b.ch())...)
@@ -324,7 +359,12 @@ type Built struct {
 func (b *Builder) Build(m *MsgSpec) Built {
 	var out Built
 	ext := m.Ext()
-	pc := b.protContent(m.Prot)
+	var pc []byte
+	if m.Kind == refcose.KSign {
+		pc = b.protContent(m.Prot)
+	} else {
+		pc = b.protContent(withInject(m.Prot, m.Inject, m.Sigs[0].Key.Alg))
+	}
 	out.ProtContent = pc
 	payloadItem := rc.Encode(rc.Bytes(m.Payload), b.ch())
 	if m.Detached {
@@ -335,9 +375,9 @@ func (b *Builder) Build(m *MsgSpec) Built {
 	switch m.Kind {
 	case refcose.KSign1, refcose.KSign1Untagged:
 		key := m.Sigs[0].Key
-		sig := refcose.Sign(key.Alg, key, refcose.SigStructure1(pc, ext, m.Payload), b.entropyFor("m"))
+		sig := b.sign(key, refcose.SigStructure1(pc, ext, m.Payload), "msg")
 		out.Sigs = [][]byte{sig}
-		un.M = append(un.M, b.groupEntries(m.Groups, Parent{Kind: refcose.KSign1, BodyProt: pc, Payload: m.Payload, Sig: sig})...)
+		un.M = append(un.M, b.groupEntries(m.Groups, Parent{Kind: refcose.KSign1, BodyProt: pc, Payload: m.Payload, Sig: sig, Where: "msg"})...)
 		if m.Kind == refcose.KSign1 {
 			wire = []byte{0xd2, 0x84}
 		} else {
@@ -350,19 +390,20 @@ func (b *Builder) Build(m *MsgSpec) Built {
 	case refcose.KSign:
 		var sigItems []rc.Val
 		for i, s := range m.Sigs {
-			sp := b.protContent(s.Prot)
-			sig := refcose.Sign(s.Key.Alg, s.Key, refcose.SigStructure(pc, sp, ext, m.Payload), b.entropyFor("s"+string(rune(i))))
+			sp := b.protContent(withInject(s.Prot, s.Inject, s.Key.Alg))
+			where := fmt.Sprintf("sig[%d]", i)
+			sig := b.sign(s.Key, refcose.SigStructure(pc, sp, ext, m.Payload), where)
 			out.Sigs = append(out.Sigs, sig)
 			out.SigProts = append(out.SigProts, sp)
 			su := s.Unprot.Clone()
-			su.M = append(su.M, b.groupEntries(s.Groups, Parent{Kind: refcose.KSignature, BodyProt: sp, Payload: sig})...)
+			su.M = append(su.M, b.groupEntries(s.Groups, Parent{Kind: refcose.KSignature, BodyProt: sp, Payload: sig, Where: where})...)
 			raw := []byte{0x83}
 			raw = append(raw, rc.Encode(rc.Bytes(sp), b.ch())...)
 			raw = append(raw, rc.Encode(su, b.ch())...)
 			raw = append(raw, rc.Encode(rc.Bytes(sig), b.ch())...)
 			sigItems = append(sigItems, rc.Raw(raw))
 		}
-		un.M = append(un.M, b.groupEntries(m.Groups, Parent{Kind: refcose.KSign, BodyProt: pc, Payload: m.Payload})...)
+		un.M = append(un.M, b.groupEntries(m.Groups, Parent{Kind: refcose.KSign, BodyProt: pc, Payload: m.Payload, Where: "msg"})...)
 		wire = []byte{0xd8, 0x62, 0x84}
 		wire = append(wire, rc.Encode(rc.Bytes(pc), b.ch())...)
 		wire = append(wire, rc.Encode(un, b.ch())...)
